@@ -30,6 +30,15 @@ fn rust_str(s: &str) -> String {
 }
 
 fn gen_macro_string(rng: &mut Rng) -> String {
+	if rng.chance(1, 25) {
+		// long literals: plain runs beyond any staging buffer, with and without a wide character in them
+		let n = [127usize, 128, 129, 200, 257, 300, 1030][rng.below(7)];
+		let mut s: String = (0..n).map(|j| char::from(b'a' + (j % 26) as u8)).collect();
+		if rng.chance(1, 2) {
+			s.insert(rng.below(n), ['\u{e9}', '\u{1f600}', '\n'][rng.below(3)]);
+		}
+		return s;
+	}
 	match rng.below(6) {
 		0 => String::new(),
 		1 => ["a", "key", "k", "x y", "0", "null", "true"][rng.below(7)].to_string(),
@@ -341,6 +350,15 @@ fn lookups_agree(a: &Value, b: &Value) -> bool {
 	}
 }
 fn check(i: usize, built: Value, text: &str, exact: bool, single: bool) {
+	// the byte-slice entry point must read the same text the same way
+	match (Value::parse_slice(text.as_bytes()), Value::parse_str(text)) {
+		(Ok((a, _)), Ok((b, _))) if a == b => (),
+		(Err(_), Err(_)) => (),
+		(a, b) => {
+			println!("CASE {} FAIL parse_slice and parse_str disagree on the text: {:?} / {:?}", i, a.map(|x| x.0.to_string()).map_err(|e| format!("{:?}", e)), b.map(|x| x.0.to_string()).map_err(|e| format!("{:?}", e)));
+			return;
+		}
+	}
 	match Value::parse_str(text) {
 		Ok((parsed, _)) => {
 			let ok = if exact { built == parsed } else { same(&built, &parsed, false, single) };
@@ -536,6 +554,13 @@ pub fn run(cfg: &Config) -> i32 {
 				}
 			}
 		}
+		if b == 1 {
+			// one literal beyond 8 KiB and 64 KiB of text (byte-slice front ends work block-wise)
+			for n in [4_200usize, 33_000] {
+				let s = "\u{e9}".repeat(n);
+				cases.push(Case { rust: format!("json!([1, {}, {{\"k\": {}}}])", rust_str(&s), rust_str(&s)), json: format!("[1,\"{}\",{{\"k\":\"{}\"}}]", s, s), exact: true, single: false });
+			}
+		}
 		if b == 0 {
 			// fixed corner cases in every run
 			for (r, j) in [
@@ -564,7 +589,7 @@ pub fn run(cfg: &Config) -> i32 {
 		cfg,
 		EvidenceMeta {
 			id: "C19",
-			rule: "a case is one json! invocation over a generated document (nesting up to 4, optional trailing commas at every level incl. after nested containers, string literals of every character class, null/true/false, unsuffixed i32 integers incl. negative ones, suffixed integers of every width at their bounds, spelling-stable floats compared exactly and exponent / trailing-zero floats, the shortest spelling of random doubles and of doubles with few significant bits (widened singles, dyadic fractions) compared as the same double, f32-suffixed literals (fixed ones and the shortest spelling of random singles) compared as the same single, duplicate keys, parenthesized / String::from / concat! / const keys, the three macro delimiters; plus arrays and objects of exactly k scalar literals for every k in 1..40 with and without a trailing comma) emitted as Rust source together with the matching JSON text; the programs are compiled against the current tree and executed, each comparing the constructed value with Value::parse_str of the text (written raw or, for a quarter of the cases, with every non-ASCII character as \\uXXXX escapes), and the positions every key lookup reports on every object of the constructed value with those on the parsed one; a compile error attributed to an invocation is a violation; distinct invocations counted by hash",
+			rule: "a case is one json! invocation over a generated document (nesting up to 4, optional trailing commas at every level incl. after nested containers, string literals of every character class (also 127..1030 characters long, and two of 8 KiB / 64 KiB), null/true/false, unsuffixed i32 integers incl. negative ones, suffixed integers of every width at their bounds, spelling-stable floats compared exactly and exponent / trailing-zero floats, the shortest spelling of random doubles and of doubles with few significant bits (widened singles, dyadic fractions) compared as the same double, f32-suffixed literals (fixed ones and the shortest spelling of random singles) compared as the same single, duplicate keys, parenthesized / String::from / concat! / const keys, the three macro delimiters; plus arrays and objects of exactly k scalar literals for every k in 1..40 with and without a trailing comma) emitted as Rust source together with the matching JSON text; the programs are compiled against the current tree and executed, each comparing the constructed value with Value::parse_str of the text (written raw or, for a quarter of the cases, with every non-ASCII character as \\uXXXX escapes), and the positions every key lookup reports on every object of the constructed value with those on the parsed one; a compile error attributed to an invocation is a violation; distinct invocations counted by hash",
 			exhaustive: false,
 			assumptions: vec!["rustc's macro expander is part of the trusted base; a float literal reaches the macro as an f64, so only shortest-round-trip spellings without exponent are required to be preserved exactly".into()],
 			extra: json!({"batches": n_batches, "invocations_per_batch": per}),
